@@ -237,12 +237,52 @@ def plan(tier):
         jobs.append(Job('%s.L3.%s' % (PROP, tag), kname, r'^auto cnl::_impl::operator<<<cnl::_impl::wrapper<', c_shl(D, LR, R, tag), via=sname,
                         shim=sname, shim_types=[short_of(LR)], prop=PROP, timeout=120, layer=3,
                         oracle=(lambda D, LR, R: lambda a: None if not ((-(2 ** D - 1) if LR.signed else 0) <= a <= 2 ** D - 1) else ('value', a * 2 ** R))(D, LR, R)))
+    # unary minus: -elastic_integer<D, N> is signed with D digits and holds -l exactly (whole public operator, everything inlined)
+    for (D, nn) in [(7, 'i8'), (8, 'u8'), (16, 'u16'), (31, 'i32'), (32, 'u32'), (63, 'i64')] + ([(64, 'u64'), (1, 'u32'), (33, 'u32'), (20, 'u8'), (15, 'i16')] if thorough else []):
+        N_ = T(nn)
+        LR = rep_of(D, N_)
+        A = 'cnl::elastic_integer<%d, %s>' % (D, cxx(nn))
+        tag = 'minus_%d%s' % (D, nn)
+        E = 'decltype(-%s{})' % A
+        src.append(fact_shim('dig_' + tag, 'cnl::digits_v<%s>' % E))
+        src.append(fact_shim('sgn_' + tag, 'cnl::numbers::signedness_v<%s>' % E))
+        src.append(fact_shim('bits_' + tag, 'sizeof(cnl::_impl::rep_of_t<%s>) * 8' % E))
+        sname = 'vp_' + tag
+        src.append(shim('auto', sname, [(short_of(LR), 'a')], 'return cnl::_impl::to_rep(-cnl::_impl::from_rep<%s>(a));' % A))
+
+        def c_minus(D, LR, tag):
+            def gen(m, fi, tr):
+                if fi['nparams'] != 1:
+                    return None
+                Dres, sres, bres = fact_value(tr, 'dig_' + tag), fact_value(tr, 'sgn_' + tag), fact_value(tr, 'bits_' + tag)
+                Res = CT.ty(('i' if sres else 'u') + str(bres))
+                w = max(LR.bits, bres) + 4
+                lv = wval(arg_rep(tr, fi, 0), LR, w)
+                ret = wval('$RET', Res, w)
+                return Contract(requires=['%s >= %s && %s <= %s' % (lv, wconst(-(2 ** D - 1) if LR.signed else 0, w), lv, wconst(2 ** D - 1, w))],
+                                ensures=['%s == -%s' % (ret, lv), '%s >= %s && %s <= %s' % (ret, wconst(-(2 ** Dres - 1) if sres else 0, w), ret, wconst(2 ** Dres - 1, w))],
+                                assigns=[], note='exact -l within the digits of the result type')
+            return gen
+
+        def o_minus(D, LR, tag):
+            def o(a, _tr=None):
+                if not ((-(2 ** D - 1) if LR.signed else 0) <= a <= 2 ** D - 1):
+                    return None
+                if _tr is not None:
+                    Dr_, sg = fact_value(_tr, 'dig_' + tag), fact_value(_tr, 'sgn_' + tag)
+                    if not ((-(2 ** Dr_ - 1) if sg else 0) <= -a <= 2 ** Dr_ - 1):
+                        return ('unrepresentable', 'exact result %d is outside the declared range of the result type' % -a)
+                return ('value', -a)
+            o.wants_tr = True
+            return o
+        jobs.append(Job('%s.L3.%s' % (PROP, tag), kname, r'^auto cnl::_impl::operator-<cnl::_impl::wrapper<', c_minus(D, LR, tag), via=sname,
+                        shim=sname, shim_types=[short_of(LR)], prop=PROP, timeout=120, layer=3, oracle=o_minus(D, LR, tag)))
     jobs.append(('LEAVES', kname, P_PLAIN, c_plain_leaf, 'L0.plain_op', dict(abstract_mul=True, abstract_div=True, timeout=300)))
     k = Kernel(kname, ''.join(src), [], 'elastic_integer operators')
     meta = {'instantiations': n,
             'explanation': 'exact value and declared-range postconditions per layer; digits/signedness of the result type are read from the IR as the library reports them',
             'not_applicable_parts': skipped + ['results that need multi-word (wide_integer) storage: see C10',
-                                               'shifts by compile-time constants and comparisons: see C03/C12 jobs'],
+                                               'right shift by a constant (not an exact operation); comparisons: see C03'],
             'assumptions': []}
     return {'kernels': [k], 'jobs': jobs, 'meta': meta}
 
